@@ -203,6 +203,9 @@ class Verdict:
         cov = ev["coverage"]
         cov.setdefault("known_findings_reported", [k["what"] if isinstance(k, dict) else str(k) for k, _ in self.known])
         cov.setdefault("notes", self.notes)
+        from . import tlc as _tlc
+        if _tlc.ACTION_HIST:
+            cov.setdefault("spec_actions_in_replayed_simulations", dict(sorted(_tlc.ACTION_HIST.items())))
         with open(os.path.join(EVIDENCE, "%s.json" % self.prop), "w") as f:
             json.dump(ev, f, indent=1, default=str)
         for k, what in self.known:
